@@ -419,6 +419,15 @@ def scenarios_c06():
     out.append(('new: post-empty:null + write|put:0', {
         'A': post_allocs({K3: ({}, 'null', 'pA'), K4: (a3, 'null', 'pA')}),
         'B': put_alloc(K3, a1, 0, 'pB')}))
+    # creators of one consumer at different microversions: the loser of the
+    # creation race is refused (409) - and changes nothing, not even the
+    # consumer type it does not know about
+    out.append(('new: put 1.37 (no type) null|put 1.39 null typed', {
+        'A': put_alloc(K3, a1, 'null', 'pA', version='1.37'),
+        'B': put_alloc(K3, a2, 'null', 'pB', ctype='MIGRATION')}))
+    out.append(('new: post 1.36 null|put 1.39 null typed', {
+        'A': post_allocs({K3: (a1, 'null', 'pA')}, '1.36'),
+        'B': put_alloc(K3, a2, 'null', 'pB', ctype='MIGRATION')}))
     # clearing writes in flight together
     out.append(('existing: put-clear|put-clear identical', {
         'A': put_alloc(K1, {}, 'cur', 'pA'),
